@@ -10,6 +10,7 @@ import (
 	"sort"
 	"strings"
 	"sync"
+	"time"
 
 	dawn "github.com/pgavlin/dawn"
 	"github.com/pgavlin/dawn/diff"
@@ -187,6 +188,7 @@ func Build(req BuildReq) (res BuildRes) {
 	opts := &dawn.RunOptions{Always: req.Always, DryRun: req.Dry}
 	if err := proj.Run(l, opts); err != nil {
 		res.RunErr = err.Error()
+		settle(rec)
 	}
 	if req.Twice {
 		if req.Reload {
@@ -198,6 +200,7 @@ func Build(req BuildReq) (res BuildRes) {
 		rec.add(Event{Kind: "SecondRun"})
 		if err := proj.Run(l, opts); err != nil {
 			res.Run2Err = err.Error()
+			settle(rec)
 		}
 	}
 	return
@@ -294,4 +297,21 @@ func DiffMaps(a, b map[string]string) []string {
 	}
 	sort.Strings(out)
 	return out
+}
+
+// settle waits until no further event arrives: when a build fails with a cyclic-dependency
+// error Run returns while other targets are still finishing.
+func settle(rec *Recorder) {
+	last, same := -1, 0
+	for i := 0; i < 1000 && same < 5; i++ {
+		time.Sleep(5 * time.Millisecond)
+		rec.mu.Lock()
+		n := len(rec.Events)
+		rec.mu.Unlock()
+		if n == last {
+			same++
+		} else {
+			last, same = n, 0
+		}
+	}
 }
